@@ -168,7 +168,28 @@ fn raw_len_case(end: EndKind, nitems_two: bool) {
 	assert!(out[gs + 1] == sb[0] && out[gs + 4] == sb[3]);
 	// first frame event
 	assert!(out[gs + 5] == 0x3A);
+	// the table the writer emitted is one the real reader accepts (it insists on a Game Start
+	// and a Game End entry whether or not the stream has a Game End), and it declares the
+	// sizes of the events that follow
+	// (seven entries at 3.16 without Gecko codes; concrete slice bounds - a bound read back from
+	// the sink makes the table's length symbolic for CBMC: 16 GB, no verdict in 25 min)
+	assert!(table_len == 22 && gs == 38);
+	let parsed = peppi::io::slippi::de::verif::parse_payloads(&out[15..38]);
+	match &parsed {
+		Ok((n, sizes)) => {
+			assert!(*n == 23);
+			assert!(sizes[0x36].map(|x| x.get()) == Some(4));
+			assert!(sizes[0x39].map(|x| x.get()) == Some(6));
+			assert!(sizes[0x3A].map(|x| x.get()) == Some(12));
+			assert!(sizes[0x3C].map(|x| x.get()) == Some(8));
+			if nitems_two {
+				assert!(sizes[0x3B].map(|x| x.get()) == Some(44));
+			}
+		}
+		Err(_) => assert!(false),
+	}
 	kani::cover!(true, "reached");
+	forget(parsed);
 	forget(r);
 	forget(game);
 }
